@@ -52,10 +52,15 @@ def hist : P String := do
   let mut out := ""
   for k in [0:n] do
     let op ← tok
-    let (m', o) ← applyOp m op
-    m := m'
     if k > 0 then out := out ++ " ; "
-    out := out ++ op ++ " " ++ o ++ " | " ++ wMat m
+    if op == "norms" then
+      let p : Float ← Wire.rd
+      let o := match (Scalar.normsView (K := K)) with | some f => f m p | none => "n/a"
+      out := out ++ op ++ " " ++ o ++ " | " ++ wMat m
+    else
+      let (m', o) ← applyOp m op
+      m := m'
+      out := out ++ op ++ " " ++ o ++ " | " ++ wMat m
   pure out
 
 end DrvMat
